@@ -1,6 +1,8 @@
 package rules
 
 import (
+	"regexp"
+	"os"
 	"fmt"
 	"go/ast"
 	"go/constant"
@@ -1298,6 +1300,11 @@ func sliceGuarded(f *ssa.Function, x *ssa.Slice) (bool, string) {
 // ---- SKIP = READ ---------------------------------------------------------------------
 
 func checkSkipRead(c *core.Ctx, l *core.Ledger, m *wireModel) {
+	if os.Getenv("VDEBUG") != "" {
+		for code := int64(0); code <= 16; code++ {
+			fmt.Fprintf(os.Stderr, "SKIPSIG %d: %s\n", code, canonNames(skipSignature(c, code)))
+		}
+	}
 	get := func(name string) (string, *ssa.Function) {
 		f := m.method("StreamReader", name)
 		if f == nil {
@@ -1306,28 +1313,34 @@ func checkSkipRead(c *core.Ctx, l *core.Ledger, m *wireModel) {
 		}
 		return normSeqs(m.RSeqs(f)), f
 	}
-	rows := []struct{ name, want, why string }{
-		{"Skip", "[!fw($1)>0 case:11 be32→ discard(sr.ReadInt32($0)#0)] | [!fw($1)>0 case:12 call:skipStruct()] | [!fw($1)>0 case:13 call:skipMap()] | [!fw($1)>0 case:14 call:skipList()] | [!fw($1)>0 case:15 call:skipList()] | [fw($1)>0 discard(fixedWidth($1))]",
-			"fixed-width types skip fixedWidth(t) bytes; binary skips exactly the length read; struct/map/set/list delegate"},
-		{"skipStruct", "[u8→] | [u8→ loop:discard(c:2) loop:call:Skip(phi(sr.ReadInt8($0)#0,sr.ReadInt8($0)#0)) loop:u8→]",
-			"per field: type byte, 2-byte id (= width of the i16 read by ReadFieldBegin), value of that type; stop on type byte 0"},
-		{"skipMap", "[u8→ u8→ be32→ call:skipMapItems(sr.ReadInt8($0)#0,sr.ReadInt8($0)#0,sr.ReadInt32($0)#0)]",
-			"same header layout as ReadMapBegin"},
-		{"skipList", "[u8→ be32→ call:skipListItems(sr.readTypeSizeHeader($0)#0,sr.readTypeSizeHeader($0)#1)]",
-			"same header as ReadListBegin/ReadSetBegin (shared helper)"},
-		{"skipMapItems", "[!fw($1)>0 loop:call:Skip($1) loop:call:Skip($2)] | [!fw($1)>0] | [fw($1)>0 !fw($2)>0 loop:call:Skip($1) loop:call:Skip($2)] | [fw($1)>0 !fw($2)>0] | [fw($1)>0 fw($2)>0 discard(($3*(fixedWidth($1)+fixedWidth($2))))]",
-			"size pairs of key then value; fast path only when both widths are fixed"},
-		{"skipListItems", "[!fw($1)>0 loop:call:Skip($1)] | [!fw($1)>0] | [fw($1)>0 discard((fixedWidth($1)*$2))]",
-			"size elements of the element type; fast path only for fixed width"},
-	}
-	for _, r := range rows {
-		got, f := get(r.name)
-		if f == nil {
-			continue
+	// per wire type: what Skip(t) consumes, with t fixed and Skip's helpers (including the members of its
+	// call cycle) expanded in place, in canonical names — independent of how the skipping code is split up
+	if f := m.method("StreamReader", "Skip"); f != nil {
+		names := map[int64]string{}
+		for n, k := range wireTypeCodes {
+			names[k] = n
 		}
-		l.Add(core.Obligation{Rule: "SKIP=READ", Key: "StreamReader." + r.name, Pos: c.Rel(f.Pos()), Status: st(dedupShapes(got) == dedupShapes(r.want)),
-			Detail: r.why + "; extracted " + got + "; expected " + r.want})
+		for code := int64(0); code <= 16; code++ {
+			got := canonNames(skipSignature(c, code))
+			want, known := skipSigWant[code]
+			key := fmt.Sprintf("Skip(%d)", code)
+			if n, ok := names[code]; ok {
+				key = "Skip(" + n + ")"
+			}
+			if !known {
+				// not a Thrift type code: Skip must fail (no success path)
+				if _, isType := names[code]; !isType {
+					l.Check(got == "", "SKIP=READ", key, c.Rel(f.Pos()), "no success path for a byte that is not a type code", "Skip succeeds for the non-type code "+fmt.Sprint(code)+": "+got)
+				}
+				continue
+			}
+			l.Add(core.Obligation{Rule: "SKIP=READ", Key: key, Pos: c.Rel(f.Pos()), Status: st(dedupShapes(got) == dedupShapes(want)),
+				Detail: "bytes consumed when skipping this type; extracted " + got + "; Thrift row " + want})
+		}
+	} else {
+		l.Unk("SKIP=READ", "anchor:Skip", "", "StreamReader.Skip not found")
 	}
+	_ = get
 	// skipStruct: the two ReadInt8 feeding Skip are the loop's type bytes; the map header bytes are distinct reads in order key,value
 	if f := m.method("StreamReader", "skipMap"); f != nil {
 		// args of skipMapItems are the 1st, 2nd ReadInt8 and the ReadInt32 in program order
@@ -1423,4 +1436,66 @@ func indexSafeForAllBytes(c *core.Ctx, f *ssa.Function) (bool, string) {
 		return false, ""
 	}
 	return true, "explored for each of the 256 values of its one-byte parameter: no value reaches an index outside the table"
+}
+
+// skipSignature: the read/skip sequence of StreamReader.Skip for one wire type
+// code, with the type parameter fixed to that code (branches on it decided by
+// constant propagation, fixedWidth(t) taken from the evaluated table) and the
+// members of Skip's call cycle expanded in place once. Independent of how the
+// skipping code is split into helper functions or cases.
+func skipSignature(c *core.Ctx, code int64) string {
+	m := newWireModel(c)
+	f := m.method("StreamReader", "Skip")
+	if f == nil || len(f.Params) != 2 {
+		return "?"
+	}
+	fw, def, why := fixedWidthTable(c)
+	m.unroll = true
+	m.decide = func(ifi *ssa.If) (int, bool) {
+		return c.ConstCond(ifi, func(v ssa.Value) (core.CVal, bool) {
+			if p, ok := v.(*ssa.Parameter); ok && p == f.Params[1] {
+				return core.CVal{Kind: core.CInt, I: code}, true
+			}
+			if call, ok := v.(*ssa.Call); ok && why == "" {
+				if cal := call.Call.StaticCallee(); cal != nil && cal.Name() == "fixedWidth" && len(call.Call.Args) == 1 {
+					if p, ok := core.Unop(call.Call.Args[0]).(*ssa.Parameter); ok && p == f.Params[1] {
+						if w, has := fw[code]; has {
+							return core.CVal{Kind: core.CInt, I: w}, true
+						}
+						return core.CVal{Kind: core.CInt, I: def}, true
+					}
+				}
+			}
+			return core.CVal{}, false
+		})
+	}
+	return normSeqs(m.RSeqs(f))
+}
+
+var reReadResult = regexp.MustCompile(`phi\((?:[^()]|\([^()]*\))*\)|sr\.[A-Za-z0-9_]+\(\$0\)#\d+`)
+
+// canonNames replaces every distinct read-result expression by T1, T2, ... in
+// order of first appearance, so that a signature does not depend on which
+// helper performed the read.
+func canonNames(s string) string {
+	names := map[string]string{}
+	return reReadResult.ReplaceAllStringFunc(s, func(m string) string {
+		if n, ok := names[m]; ok {
+			return n
+		}
+		n := fmt.Sprintf("T%d", len(names)+1)
+		names[m] = n
+		return n
+	})
+}
+
+// the frozen per-type skip signatures (Thrift binary protocol): what Skip(t)
+// consumes for each wire type code, in canonical names.
+var skipSigWant = map[int64]string{
+	2: "[discard(fixedWidth($1))]", 3: "[discard(fixedWidth($1))]", 4: "[discard(fixedWidth($1))]", 6: "[discard(fixedWidth($1))]", 8: "[discard(fixedWidth($1))]", 10: "[discard(fixedWidth($1))]",
+	11: "[be32→ discard(T1)]",
+	12: "[alt{u8→|u8→ loop:discard(c:2) loop:call:Skip(T1) loop:u8→}]",
+	13: "[u8→ u8→ be32→ alt{!fw(T1)>0|!fw(T1)>0 loop:call:Skip(T1) loop:call:Skip(T1)|fw(T1)>0 !fw(T1)>0|fw(T1)>0 !fw(T1)>0 loop:call:Skip(T1) loop:call:Skip(T1)|fw(T1)>0 fw(T1)>0 discard((T2*(fixedWidth(T1)+fixedWidth(T1))))}]",
+	14: "[u8→ be32→ alt{!fw(T1)>0|!fw(T1)>0 loop:call:Skip(T1)|fw(T1)>0 discard((fixedWidth(T1)*T2))}]",
+	15: "[u8→ be32→ alt{!fw(T1)>0|!fw(T1)>0 loop:call:Skip(T1)|fw(T1)>0 discard((fixedWidth(T1)*T2))}]",
 }
